@@ -12,6 +12,7 @@ package metadata
 import (
 	"context"
 	"fmt"
+	"strings"
 	"sync"
 	"testing"
 
@@ -285,7 +286,11 @@ func c15RPCRound(r *verifkit.Run, round, nOps, nSubs int) {
 			for _, x := range answers[s][max(0, n-6):] {
 				tail = append(tail, fmt.Sprintf("from=%d limit=%d long=%v -> %d events, current=%d, err=%q; direct DBV2.JournalEvents at that moment: %s", x.From, x.Limit, x.Long, len(x.Events), x.Current, x.Err, x.Direct))
 			}
-			viol("journal/no-progress", fmt.Sprintf("subscriber %d asked for the journal from version %d (limit %d, return-if-empty) and got an empty answer although version %d exists: a paging reader never gets past this point", s, a.From, a.Limit, m.maxVer), map[string]any{"subscriber": s, "last_answers": tail})
+			key := "journal/no-progress"
+			if a.Direct != "" && !strings.HasPrefix(a.Direct, "0 events") {
+				key = "journal/empty-answer-while-database-returns-newer-versions" // the handler, not DBV2.JournalEvents
+			}
+			viol(key, fmt.Sprintf("subscriber %d asked for the journal from version %d (limit %d, return-if-empty) and got an empty answer although version %d exists: a paging reader never gets past this point", s, a.From, a.Limit, m.maxVer), map[string]any{"subscriber": s, "last_answers": tail})
 		}
 		for id, e := range m.ents {
 			if latest[id].Version != e.Ver {
